@@ -271,6 +271,7 @@ static bool print_all(World &w, MVal *x, int64_t parg, std::string &F, std::stri
 DEFOP(roundtrip) {
     MVal *x = w.pick(st.A(0), st.A(1), [&](MVal *) { return true; });
     if (!x) { w.noop(st, "no node"); return; }
+    if ((((uint64_t)st.A(1)) / 5) % 2 == 0) x = mv_root(x);   // half of the evaluations take a whole tree (deep and wide ones are trees, not nodes)
     std::string why;
     if (!domain_printable(x, true, false, false, 0, why)) { w.noop(st, "outside the C04 domain"); return; }
     MVal *E = mv_clone_value(x);
@@ -330,6 +331,7 @@ static bool int_literal(const std::string &t) {
 DEFOP(strictprint) {
     MVal *x = w.pick(st.A(0), st.A(1), [&](MVal *) { return true; });
     if (!x) { w.noop(st, "no node"); return; }
+    if ((((uint64_t)st.A(1)) / 5) % 2 == 0) x = mv_root(x);   // half of the evaluations take a whole tree (deep and wide ones are trees, not nodes)
     std::string why;
     if (!domain_printable(x, false, true, false, 0, why)) { w.noop(st, "outside the C05 domain"); return; }
     MVal *E = mv_clone_value(x);
@@ -371,6 +373,7 @@ DEFOP(strictprint) {
 DEFOP(capscan) {
     MVal *x = w.pick(st.A(0), st.A(1), [&](MVal *) { return true; });
     if (!x) { w.noop(st, "no node"); return; }
+    if ((((uint64_t)st.A(1)) / 5) % 2 == 0) x = mv_root(x);   // half of the evaluations take a whole tree (deep and wide ones are trees, not nodes)
     std::string why;
     if (!domain_printable(x, false, false, true, 0, why)) { w.noop(st, "not printable"); return; }
     for (int fmt = 0; fmt < 2; fmt++) {
